@@ -16,4 +16,5 @@ for p in "$@"; do
   echo "$name $p exit=$? $(grep -cE '^VIOLATION' .build/seedlogs/$name.$p.log) violation-lines; $(grep -E '^(property=|UNDECIDED property)' .build/seedlogs/$name.$p.log | head -2 | cut -c1-300)"
 done
 git -C /repo worktree remove --force "$wt"
-rm -rf /verif/.build/kani-target-* /verif/.build/kx-[0-9a-f]* /verif/.build/replay-target-* /verif/.build/replay-[0-9a-f]* 2>/dev/null
+tag=$(python3 -c "import hashlib,sys;print(hashlib.sha256(sys.argv[1].encode()).hexdigest()[:10])" "$wt")
+rm -rf /verif/.build/kani-target-$tag /verif/.build/kx-$tag /verif/.build/replay-target-$tag /verif/.build/replay-$tag 2>/dev/null
